@@ -112,8 +112,22 @@ def run_property(prop, tier, seed, replay_file=None):
         for k, v in r.get("notes", {}).items():
             notes.setdefault(k, v)
 
+    cover = {}
+    cover_err = set()
+    for r in results:
+        cv = r.get("cover") or {}
+        cover_err.update(cv.get("errors", []))
+        for spec, d in cv.get("functions", {}).items():
+            c = cover.setdefault(spec, {"hit": set(), "lines": set()})
+            c["hit"].update(d["hit"])
+            c["lines"].update(d["lines"])
     unmet = []
     if not replay_file:
+        for spec, c in cover.items():
+            if not c["hit"]:
+                unmet.append(f"anchored function {spec} was never executed by the workload")
+        for e in sorted(cover_err):
+            unmet.append(f"anchored function could not be resolved: {e}")
         unmet = list(mod.gates(counters, tier)) if hasattr(mod, "gates") else []
         if not samples:
             unmet.append("no sample case recorded")
@@ -166,6 +180,10 @@ def run_property(prop, tier, seed, replay_file=None):
         }
         if notes:
             cov["notes"] = notes
+        cov["anchored_code_reached"] = {
+            spec: {"lines_executed": len(c["hit"] & c["lines"]) or len(c["hit"]), "lines_total": len(c["lines"]), "never_executed": sorted(c["lines"] - c["hit"])[:40]}
+            for spec, c in sorted(cover.items())
+        }
         if hasattr(mod, "summarize"):
             cov.update(mod.summarize(counters, tier))
         ev = {
